@@ -715,9 +715,12 @@ func (s *AbsfsNFS) RenameWithContext(ctx context.Context, oldDir *NFSNode, oldNa
 	if err != nil {
 		return fmt.Errorf("rename: failed to rename %s to %s: %w", oldPath, newPath, err)
 	}
-	// Invalidate caches and negative cache entries
-	s.attrCache.Invalidate(oldPath)
-	s.attrCache.Invalidate(newPath)
+	// Invalidate caches and negative cache entries. A renamed directory takes
+	// everything below it along, and replaces whatever was at the target, so
+	// both names are dropped together with their subtrees (attributes,
+	// negative entries and listings).
+	s.attrCache.invalidateSubtree(oldPath)
+	s.attrCache.invalidateSubtree(newPath)
 	s.attrCache.Invalidate(oldDir.path)
 	s.attrCache.Invalidate(newDir.path)
 	// Invalidate negative cache entries in both directories
@@ -726,6 +729,8 @@ func (s *AbsfsNFS) RenameWithContext(ctx context.Context, oldDir *NFSNode, oldNa
 	if s.dirCache != nil {
 		s.dirCache.Invalidate(oldDir.path)
 		s.dirCache.Invalidate(newDir.path)
+		s.dirCache.invalidateSubtree(oldPath)
+		s.dirCache.invalidateSubtree(newPath)
 	}
 	return nil
 }
